@@ -262,7 +262,7 @@ func hugeCuts(n int, ends []int) []int {
 
 func TestC09(t *testing.T) {
 	R := ev.New("C09")
-	R.Rule = "cases = (codec, stream, cut offset[, read granularity]); gob and JSON: every byte offset 0..len of every stream, CSV: every record boundary; plus (codec, sequence of length 1..3 over the pool, Encode call / Write call) for the nothing-is-held-back check; plus every sequence of length 1..4 (6) over {2 ordinary records, a record the codec rejects} containing a rejected one, gob and JSON, inspected after every call (what reached the writer decodes to exactly the acknowledged records). A case is distinct+non-trivial when its (codec, stream, offset) is new and the cut falls strictly inside a record (a torn record follows the clean prefix), or - for the write-log part - when bytes of at least two Encode calls precede the inspection point"
+	R.Rule = "cases = (codec, stream, cut offset[, read granularity]); gob and JSON: every byte offset 0..len of every stream, CSV: every record boundary; plus (codec, sequence of length 1..3 over the pool, Encode call / Write call) for the nothing-is-held-back check; plus every sequence of length 1..4 (6) over {2 ordinary records, a record the codec rejects} containing a rejected one, gob and JSON, inspected after every call (what reached the writer decodes to exactly the acknowledged records); plus two inputs behind NewRoundRobinDecoder, the longer one cut at every offset (CSV: record boundary), in both argument orders. A case is distinct+non-trivial when its (codec, stream, offset) is new and the cut falls strictly inside a record (a torn record follows the clean prefix), or - for the write-log part - when bytes of at least two Encode calls precede the inspection point"
 	R.Assume("a stream is what one encoder writes through successive Encode calls; ends[i] is the number of bytes handed to the writer when Encode(i) returned (validated: the cut at ends[i] must decode to exactly i+1 records)")
 	R.Assume("text containing CR LF is excluded (C07 known finding csv:text-field:CRLF->LF)")
 	R.Assume("CSV cut inside a record is outside the property as stated and is not asserted")
@@ -533,6 +533,7 @@ func TestC09(t *testing.T) {
 		}
 	}
 	rejectedRecords(R, p)
+	roundRobinCuts(R, p)
 	R.Set("max_write_calls_per_encode_call", maxWrites)
 	R.Sample("write-log: " + strings.TrimSpace(fmt.Sprint("sequence ", seqs[len(seqs)/2], " inspected after each Encode call for gob, json, csv")))
 	R.Finish(t)
@@ -621,6 +622,122 @@ func rejectedRecords(R *ev.Run, p []vegeta.Result) {
 	for qi := range out {
 		for _, v := range out[qi] {
 			R.Violation(v.key, v.detail)
+		}
+	}
+}
+
+// roundRobinCuts: several inputs read through NewRoundRobinDecoder, one of them
+// cut at every offset (the file of the process that was killed) next to a
+// complete one. Exactly the completely written records of all inputs come
+// back, each once, and from the first error on every call reports an error.
+func roundRobinCuts(R *ev.Run, p []vegeta.Result) {
+	type viol struct {
+		key    string
+		detail any
+	}
+	short := []vegeta.Result{p[1], p[4]}
+	long := []vegeta.Result{p[5], p[3], p[1], p[4]}
+	type job struct {
+		c        codec
+		longLast bool
+		cut      int
+	}
+	var jobs []job
+	streams := map[string][]byte{}
+	ends := map[string][]int{}
+	for _, c := range codecs {
+		w, e, _, err := encodeStream(c, long)
+		if err != nil {
+			panic(err)
+		}
+		streams[c.name], ends[c.name] = w.buf, e
+		for _, ll := range []bool{true, false} {
+			if c.name == "csv" {
+				for _, cut := range append([]int{0}, e...) {
+					jobs = append(jobs, job{c, ll, cut})
+				}
+				continue
+			}
+			for cut := 0; cut <= len(w.buf); cut++ {
+				jobs = append(jobs, job{c, ll, cut})
+			}
+		}
+	}
+	out := make([][]viol, len(jobs))
+	ev.Parallel(len(jobs), 16, func(ji int) {
+		j := jobs[ji]
+		ws, _, _, _ := encodeStream(j.c, short)
+		complete := 0
+		for _, e := range ends[j.c.name] {
+			if e <= j.cut {
+				complete++
+			}
+		}
+		a, b := j.c.dec(bytes.NewReader(ws.buf)), j.c.dec(bytes.NewReader(streams[j.c.name][:j.cut]))
+		var dec vegeta.Decoder
+		if j.longLast {
+			dec = vegeta.NewRoundRobinDecoder(a, b)
+		} else {
+			dec = vegeta.NewRoundRobinDecoder(b, a)
+		}
+		want := append(append([]vegeta.Result(nil), short...), long[:complete]...)
+		var got []vegeta.Result
+		calls, afterErr, late := 0, 0, 0
+		for calls < len(want)+8 {
+			var r vegeta.Result
+			calls++
+			R.Trans(1)
+			if err := dec.Decode(&r); err != nil {
+				afterErr++
+				if afterErr > 4 {
+					break
+				}
+				continue
+			}
+			if afterErr > 0 {
+				late++
+			}
+			got = append(got, r)
+		}
+		R.Eval(1)
+		R.Part("round_robin", j.c.name, 1)
+		if complete < len(long) && j.cut > 0 {
+			R.Distinct(fmt.Sprint("rr", j.c.name, j.longLast, j.cut))
+		}
+		what := ""
+		switch {
+		case late > 0:
+			what = "record-returned-after-an-error"
+		case len(got) != len(want):
+			what = fmt.Sprintf("returned-%s-records-than-were-completely-written", map[bool]string{true: "more", false: "fewer"}[len(got) > len(want)])
+		default:
+			used := make([]bool, len(want))
+			for _, g := range got {
+				ok := false
+				for k := range want {
+					if !used[k] && same(want[k], g) {
+						used[k], ok = true, true
+						break
+					}
+				}
+				if !ok {
+					what = "returned-a-record-that-was-not-written"
+				}
+			}
+		}
+		if what != "" {
+			out[ji] = append(out[ji], viol{j.c.name + ":round-robin:" + what, map[string]any{"cut_of_the_longer_input": j.cut, "longer_input_last": j.longLast,
+				"completely_written": len(want), "returned": len(got), "returned_after_an_error": late}})
+		}
+	})
+	R.Set("round_robin_cuts", len(jobs))
+	seen := map[string]bool{}
+	for ji := range out {
+		for _, v := range out[ji] {
+			if !seen[v.key] {
+				seen[v.key] = true
+				R.Violation(v.key, v.detail)
+			}
 		}
 	}
 }
